@@ -12,7 +12,10 @@ Firsts == {"connect_valid", "connect_unknown_object", "connect_bad_payload", "co
            "short_foreign",
            \* the header of a message of another type that announces a body which does not follow (in full); the peer closes
            \* its sending side and waits for the answer
-           "type_partial"}
+           "type_partial",
+           \* part of a connect message, then silence with the connection left open (generated for a daemon with a communication
+           \* timeout only: it is that timeout which ends the wait)
+           "stalled_partial"}
 \* return:lock - the validator accepts but hands back something no serializer can encode: the handshake cannot be completed
 Validators == {"accept", "return:None", "return:False", "return:0", "return:list", "return:lock", "raise:ValueError", "raise:KeyError",
                "raise:SecurityError", "raise:ConnectionClosedError", "raise:PyroError", "raise:TimeoutError",
@@ -24,7 +27,7 @@ Returns(v) == v = "accept" \/ SubSeq(v, 1, 7) = "return:"
 DefinedTypes == {"type_invoke", "type_result", "type_ping", "type_connectok", "type_connectfail"}
 Accept(f, v) == f = "connect_valid" /\ Returns(v) /\ v # "return:lock"
 \* the validator is consulted for a decodable CONNECT payload only
-MustReason(f, v) == \/ f \in DefinedTypes \cup {"type_partial"}
+MustReason(f, v) == \/ f \in DefinedTypes \cup {"type_partial", "stalled_partial"}
                     \/ f = "connect_unknown_serializer"       \* (the refusal cannot be written in the peer's serializer; any other will do)
                     \/ f \in {"connect_valid", "connect_unknown_object"} /\ ~Returns(v) /\ v \notin NoMessage      \* (whatever the validator raises, also one of Pyro's own connection errors)
                     \/ f = "connect_unknown_object" /\ Returns(v)
